@@ -41,6 +41,8 @@ type ftCfg struct {
 	// (each on its own variables) under the seeded scheduler; every
 	// filesystem call is a yield point.
 	Clients int `json:"clients,omitempty"`
+	// SameVar: all callers READ one and the same variable (it is stored before they start; nobody writes)
+	SameVar bool `json:"same_variable_readers,omitempty"`
 }
 
 type ftOp struct {
@@ -482,6 +484,20 @@ func (e *fstraceEngine) Gen(seed uint64, tier string, run int) *Trace {
 				}
 			}
 			nops = r.Range(c.cfg.Clients, 2*c.cfg.Clients)
+			if r.Chance(1, 4) {
+				// several callers read one variable at the same time
+				c.cfg.SameVar = true
+				v := vars[0]
+				st := &StoredSpec{Mask: uint32(v.Var().Attributes) | uint32(r.Intn(2))<<3, Val: genVal(r)}
+				for i := 0; i < nops; i++ {
+					op := ftOp{C: i % c.cfg.Clients, Op: "read", API: Pick(r, []string{"legacy.ReadEfivarsWithGuid", "legacy.ReadEfivarsWithGuid", "obj.GetVar", "obj.GetVarWithAttributes"}), Var: v}
+					if i == 0 {
+						op.Stored = st
+					}
+					c.ops = append(c.ops, op)
+				}
+				nops = 0
+			}
 		}
 		for i := 0; i < nops; i++ {
 			v := Pick(r, vars)
@@ -590,7 +606,7 @@ func (e *fstraceEngine) Gen(seed uint64, tier string, run int) *Trace {
 			}
 		}
 		if c.cfg.Clients > 1 {
-			est := 6 * nops
+			est := 6 * len(c.ops)
 			gap := Pick(r, []int{1, 1, 2, 3})
 			for y := r.Intn(gap + 1); y < est; y += 1 + r.Intn(2*gap) {
 				c.sw = append(c.sw, Switch{Yield: y, Next: r.Intn(c.cfg.Clients)})
@@ -754,6 +770,17 @@ func ftExec(c ftCfg, ops []ftOp, sw []Switch, x *X) {
 	}
 	if c.Clients > 1 {
 		sched := NewSched(x, c.Clients, sw)
+		if c.SameVar && len(ops) > 0 && ops[0].Stored != nil {
+			// the variable is in place before the readers start; a reader that waits for another one is handed over by the monitor
+			st, v0 := ops[0].Stored, ops[0].Var.Var()
+			p0 := path.Clean(refVarPath(c.Dir, v0.Name, *v0.GUID))
+			mem.MkdirAll(path.Dir(p0), 0o755)
+			fw.vars[p0] = &fwVar{Attrs: st.Mask, Data: st.Val.Bytes()}
+			afero.WriteFile(mem, p0, append(le32(st.Mask), st.Val.Bytes()...), 0o644)
+			ops[0].Stored = nil
+			sched.Monitor = true
+			x.Probe("several_readers_of_one_variable")
+		}
 		plane.yield = sched.Yield
 		tags := make([]int, c.Clients)
 		sfs.TagFn = func() int { return tags[sched.cur] }
@@ -1077,7 +1104,9 @@ func ftRead(x *X, i int, op ftOp, v efivar.Efivar, p string, obj *efivarfs.Efiva
 			}
 			gotAttrs, hasAttrs = uint32(a), true
 			if b != nil {
-				gotVal, hasVal = b.Bytes(), true
+				// the caller decodes from the buffer it was given, which uses it up
+				gotVal, hasVal = append([]byte(nil), b.Bytes()...), true
+				b.Next(b.Len())
 			}
 		case "efi.GetPK", "efi.GetKEK", "efi.Getdb", "efi.Getdbx":
 			var db *signature.SignatureDatabase
